@@ -48,7 +48,7 @@ Fixpoint own_reply (cur : list (N * N)) (ops : list op) : bool :=
 Fixpoint recv_ids (ops : list op) : list N :=
   match ops with
   | [] => []
-  | ORecv _ (Some (Some (_, i))) :: tl => i :: recv_ids tl
+  | ORecv _ (Some (Some (_, i))) :: tl => if i =? 0 then recv_ids tl else i :: recv_ids tl   (* 0: not numbered by the bus *)
   | _ :: tl => recv_ids tl
   end.
 Definition at_most_once (ops : list op) : bool := nodupN (recv_ids ops).
@@ -167,7 +167,8 @@ Fixpoint only_overlap_panics (inprog : list N) (ops : list (op * list comp)) : b
 (** *** clause 5: no request is silently lost.  While nothing has been closed: when a subscriber
     finds its Recv channel empty (everything at rest), every message accepted (send returned
     nil) for a topic it is the only subscriber of has been read from Recv.
-    [skipraw]: leave out topics that were sent a sentinel look-alike (signature of finding 5). *)
+    [skipraw]: leave out topics that were sent a sentinel look-alike (was the signature of
+    finding 5, repaired; not used by the check any more). *)
 Record nls := mkNls {
   n_off : bool;             (* a close was called: the clause is not evaluated any more *)
   n_subs : list (N * N);
